@@ -327,6 +327,10 @@ func RunSync(spec SyncSpec) vx.Out {
 			w.Do("POST", "/channel/delete?topic="+p[1]+"&channel="+p[2], nil)
 		case "mkeph":
 			w.Do("POST", "/channel/create?topic=live&channel=e%23ephemeral", nil)
+		case "mkephon":
+			// an ephemeral channel on the named topic (nsqlookupd does not hand it back to a
+			// re-created topic, so nothing re-registers it behind the scenes)
+			w.Do("POST", "/channel/create?topic="+p[1]+"&channel=e%23ephemeral", nil)
 		case "pub":
 			// a topic first created by a publish: it must start with the channels lookupd knows
 			code, _ := w.Do("POST", "/pub?topic="+p[1], []byte("first"))
